@@ -1650,8 +1650,16 @@ impl<'a, const C: usize, const R: usize, T: 'a + Copy + std::fmt::Debug> Layout<
                 // not. As another example, tap-dance and tap-hold will repeat the inner action and
                 // not the outer (tap-dance|hold) but multi will repeat the entire outer multi
                 // action.
-                if let Some(ac) = self.rpt_action {
+                //
+                // The saved action can itself contain `Repeat`: fork and multi save the whole
+                // outer action, so `(fork rpt-any ..)` or `(multi rpt-any ..)` would repeat
+                // themselves without end. Take the saved action out while it runs so that a
+                // nested `Repeat` finds nothing to repeat.
+                if let Some(ac) = self.rpt_action.take() {
                     self.do_action(ac, coord, delay, is_oneshot, &mut std::iter::empty());
+                    if self.rpt_action.is_none() {
+                        self.rpt_action = Some(ac);
+                    }
                 }
             }
             HoldTap(HoldTapAction {
